@@ -225,6 +225,31 @@ def run_rules(mod, project, tier="quick", result=None, generic=True):
         except Exception as e:  # a crash of the analysis is never a verdict
             tb = traceback.extract_tb(sys.exc_info()[2])[-1]
             result.error("%s: internal error %s: %s (%s:%d)" % (fn.__name__, type(e).__name__, e, os.path.basename(tb.filename), tb.lineno))
+    # rules of sibling properties over code this property's statement also quantifies over (shared code paths): the same rule
+    # function, run on the same tree; findings are reported for this property under the sibling's rule id
+    for rid in getattr(mod, "ALSO", []):
+        try:
+            sib_mod = prop_module(rid.split(".")[0])
+            tag = rid.split(".")[1].lower()
+            fn = [f for f in sib_mod.RULES if tag in f.__name__.split("_")[1:]]
+            if not fn:
+                result.error("shared rule %s not found" % rid)
+                continue
+            tmp = Result(sib_mod.PROP, tier)
+            fn[0](project, tmp)
+            for rr in tmp.rules:
+                if rr.id == rid:
+                    rr.result = result
+                    rr.title = "[shared with %s] %s" % (sib_mod.PROP, rr.title)
+                    result.rules.append(rr)
+            for fd in tmp.findings:
+                if fd.rule == rid:
+                    fd.prop = mod.PROP
+                    result.findings.append(fd)
+        except AnalysisError as e:
+            result.error("shared %s: %s" % (rid, e))
+        except Exception as e:
+            result.error("shared %s: internal error %s: %s" % (rid, type(e).__name__, e))
     if generic:
         try:
             generic_param_rule(mod.PROP, project, result)
